@@ -58,7 +58,8 @@
 //!   thread is saved.
 //! * **Determinism.**  The first execution of every scenario is run twice and every violating
 //!   execution once more from its full choice list; a different trace or verdict is a machinery
-//!   failure.  A watchdog (no scheduling activity of an instance for 10 s during an execution)
+//!   failure.  A watchdog (no scheduling activity of an instance for 60 s during an execution; env
+//!   `BATON_WATCHDOG_S`; it was 10 s, which a stalled virtual CPU of a loaded machine can exceed)
 //!   turns an unexpected real block into exit 2.
 //! * **Armed points.**  Metadata scheduling points fire only if their address lies in a range the
 //!   scenario has armed; `BlockPool` points and rw-lock scopes only if class `Pool` is armed;
@@ -71,7 +72,8 @@
 //! (a `Relaxed` store becoming visible late), data races on non-atomic data between points, and
 //! interleavings inside uninstrumented third-party code are outside this engine.  No partial-order
 //! reduction is applied (every interleaving of the visible operations is run), no state caching.
-//! Spurious condition-variable wake-ups are not generated.
+//! Spurious condition-variable wake-ups are only generated when the scenario asks for them
+//! (`Arming::spurious_wakeups`, each one costs a preemption).
 //!
 //! # Modes
 //!
@@ -89,7 +91,7 @@ use mmtk::util::verif::rt::{self, Class, Kind, LockMode, Runtime};
 use serde_json::{json, Value};
 use std::cell::{Cell, RefCell};
 use std::collections::{BTreeMap, HashMap};
-use std::sync::atomic::{AtomicBool, AtomicU32, AtomicU64, Ordering};
+use std::sync::atomic::{AtomicBool, AtomicU32, AtomicU64, AtomicUsize, Ordering};
 use std::sync::{Arc, Mutex, MutexGuard, OnceLock, Weak};
 
 /// Maximum number of logical threads of one instance (ids `0..MAX_THREADS`).
@@ -122,6 +124,8 @@ pub enum Op {
     Quiesce,
     /// Explicit harness-level scheduling point.
     User { label: u32 },
+    /// `try_lock` of a logical lock: always enabled; acquires the lock iff it is available.
+    TryLock { id: usize, mode: LockMode },
 }
 
 impl Op {
@@ -136,6 +140,7 @@ impl Op {
             Op::Notify { all, .. } => if *all { "notify_all".into() } else { "notify_one".into() },
             Op::Quiesce => "quiesce".into(),
             Op::User { label } => format!("user:{}", label),
+            Op::TryLock { mode, .. } => format!("try_lock:{:?}", mode),
         }
     }
     /// Discriminant used to compare traces of two runs (addresses of heap objects may differ).
@@ -150,12 +155,13 @@ impl Op {
             Op::Notify { all, .. } => 4 + *all as u32,
             Op::Quiesce => 6,
             Op::User { label } => 1000 + label,
+            Op::TryLock { mode, .. } => 20 + *mode as u32,
         }
     }
     pub fn addr(&self) -> usize {
         match self {
             Op::Atomic { addr, .. } | Op::Yield { addr } => *addr,
-            Op::Lock { id, .. } => *id,
+            Op::Lock { id, .. } | Op::TryLock { id, .. } => *id,
             Op::CondEnter { cv, .. } | Op::CondWake { cv, .. } | Op::Notify { cv, .. } => *cv,
             _ => 0,
         }
@@ -213,6 +219,8 @@ impl End {
 pub struct Event {
     pub tid: u8,
     pub name: &'static str,
+    /// static string payload (`event_str`), "" otherwise
+    pub tag: &'static str,
     pub a: usize,
     pub b: usize,
 }
@@ -287,6 +295,10 @@ pub struct Arming {
     classes: u8,
     ranges: Vec<(usize, usize)>,
     pub log_events: bool,
+    /// Number of *spurious* condition-variable wake-ups the strategy may inject in one execution:
+    /// a thread waiting un-notified on a condition variable whose mutex is free becomes an extra
+    /// candidate (never the default; choosing it costs one preemption).
+    pub spurious_wakeups: u32,
 }
 
 impl Arming {
@@ -326,6 +338,8 @@ struct ThreadSt {
     since_yield: u32,
     notified: bool,
     wait_seq: u64,
+    /// result of the last `TryLock` operation
+    try_ok: bool,
 }
 
 #[derive(Default, Debug)]
@@ -338,11 +352,16 @@ struct LockSt {
 /// A prefix of decisions to replay.
 #[derive(Clone, Debug, Default)]
 pub struct Prefix {
+    /// debugging aid (`BATON_FULL_MASKS`): the trace of the execution this prefix was cut from
+    pub debug_parent: Option<Arc<String>>,
     pub chosen: Vec<u8>,
     /// Candidate mask expected at each replayed choice point (checked when present).
     pub masks: Option<Vec<u32>>,
     /// Hash of the masks of the whole prefix (with defaults and free sets; checked at the end of the prefix when `masks` is absent).
     pub mask_hash: u64,
+    /// Neither masks nor hash are known (a schedule recovered from a crash report): only check
+    /// that every recorded choice is a candidate.
+    pub unchecked: bool,
 }
 
 fn hash_step(h: u64, mask: u32, default: usize, free: u32) -> u64 {
@@ -378,6 +397,7 @@ struct Sched {
     panics: Vec<Option<String>>,
     persistent: bool,
     events: Vec<Event>,
+    spurious_left: u32,
 }
 
 struct Slot {
@@ -391,6 +411,8 @@ pub struct Inst {
     slots: Vec<Slot>,
     aborting: AtomicBool,
     activity: AtomicU64,
+    /// 1 + the logical id of the thread `spawn` is waiting for (0 = none); diagnosis only
+    spawning: AtomicUsize,
     in_exec: AtomicBool,
     spin: u32,
     /// persistent mode: called when an execution cannot continue (deadlock, livelock, horizon,
@@ -415,7 +437,7 @@ fn bit(t: usize) -> u32 {
 impl Sched {
     fn new() -> Sched {
         Sched {
-            threads: (0..MAX_THREADS).map(|_| ThreadSt { status: Status::Absent, pending: Op::Start, in_body: false, prio: 0, since_yield: 0, notified: false, wait_seq: 0 }).collect(),
+            threads: (0..MAX_THREADS).map(|_| ThreadSt { status: Status::Absent, pending: Op::Start, in_body: false, prio: 0, since_yield: 0, notified: false, wait_seq: 0, try_ok: false }).collect(),
             current: None,
             locks: HashMap::new(),
             conds: HashMap::new(),
@@ -438,6 +460,7 @@ impl Sched {
             panics: vec![],
             persistent: false,
             events: vec![],
+            spurious_left: 0,
         }
     }
 
@@ -491,7 +514,7 @@ impl Sched {
     fn op_enabled(&self, t: usize) -> bool {
         let th = &self.threads[t];
         match th.pending {
-            Op::Start | Op::Atomic { .. } | Op::Notify { .. } | Op::CondEnter { .. } | Op::User { .. } => true,
+            Op::Start | Op::Atomic { .. } | Op::Notify { .. } | Op::CondEnter { .. } | Op::User { .. } | Op::TryLock { .. } => true,
             Op::Yield { .. } => true,
             Op::Lock { id, mode } => self.lock_available(id, mode),
             Op::CondWake { mutex, .. } => th.notified && self.lock_available(mutex, LockMode::Mutex),
@@ -518,7 +541,7 @@ impl Sched {
             let c = self.prefix.chosen[self.pos] as usize;
             if let Some(m) = &self.prefix.masks {
                 if m.get(self.pos).copied() != Some(mask) {
-                    self.end = Some(End::Diverged(format!("choice point {}: candidates {:#b}, recorded {:#b}", self.pos, mask, m.get(self.pos).copied().unwrap_or(0))));
+                    self.end = Some(End::Diverged(format!("choice point {}: candidates {:#b}, recorded {:#b}; PARENT TRACE: {}", self.pos, mask, m.get(self.pos).copied().unwrap_or(0), self.prefix.debug_parent.as_ref().map(|t| t.as_str()).unwrap_or("-"))));
                     return None;
                 }
             }
@@ -532,7 +555,7 @@ impl Sched {
         }
         self.hash = hash_step(self.hash, mask, default, free);
         self.pos += 1;
-        if self.pos == self.prefix.chosen.len() && self.prefix.masks.is_none() && self.prefix.mask_hash != self.hash {
+        if self.pos == self.prefix.chosen.len() && self.prefix.masks.is_none() && !self.prefix.unchecked && self.prefix.mask_hash != self.hash {
             self.end = Some(End::Diverged(format!("candidate sets along the prefix differ from the recorded ones (choice point {})", self.pos - 1)));
             return None;
         }
@@ -604,6 +627,20 @@ impl Sched {
             self.end = Some(End::Deadlock(blocked));
             return None;
         };
+        // spurious wake-ups: un-notified waiters whose mutex is free are extra, never free, candidates
+        let mut spurious = 0u32;
+        if self.spurious_left > 0 && normal != 0 {
+            for t in 0..MAX_THREADS {
+                let th = &self.threads[t];
+                if th.status == Status::AtPoint && !th.notified {
+                    if let Op::CondWake { mutex, .. } = th.pending {
+                        if self.lock_available(mutex, LockMode::Mutex) {
+                            spurious |= bit(t);
+                        }
+                    }
+                }
+            }
+        }
         let lowest = match me {
             // at a yield: the lowest other candidate, the yielder itself only if it is alone
             Some(m) if me_yielding && en & !bit(m) != 0 => (en & !bit(m)).trailing_zeros() as usize,
@@ -624,7 +661,7 @@ impl Sched {
         } else {
             (lowest, en)
         };
-        self.choose(en, default, free, false)
+        self.choose(en | spurious, default, free & !spurious, false)
     }
 
     /// Apply the effect of `t`'s pending operation and make it the running thread.
@@ -669,7 +706,17 @@ impl Sched {
                 self.conds.entry(cv).or_default().push(t);
                 self.threads[t].notified = false;
             }
-            Op::CondWake { mutex, .. } => self.acquire(mutex, LockMode::Mutex, t),
+            Op::CondWake { cv, mutex } => {
+                if !self.threads[t].notified {
+                    // a spurious wake-up
+                    self.spurious_left = self.spurious_left.saturating_sub(1);
+                    if let Some(w) = self.conds.get_mut(&cv) {
+                        w.retain(|x| *x != t);
+                    }
+                    self.threads[t].notified = true;
+                }
+                self.acquire(mutex, LockMode::Mutex, t)
+            }
             Op::Notify { cv, all } => {
                 let waiters = self.conds.get(&cv).cloned().unwrap_or_default();
                 if !waiters.is_empty() {
@@ -687,6 +734,13 @@ impl Sched {
                         }
                     }
                 }
+            }
+            Op::TryLock { id, mode } => {
+                let ok = self.lock_available(id, mode);
+                if ok {
+                    self.acquire(id, mode, t);
+                }
+                self.threads[t].try_ok = ok;
             }
             Op::Atomic { .. } | Op::Yield { .. } | Op::Quiesce | Op::User { .. } => {}
         }
@@ -782,9 +836,31 @@ impl Runtime for BatonRt {
         if let Some((inst, me)) = cur() {
             let mut s = inst.lock();
             if s.arming.log_events {
-                s.events.push(Event { tid: me as u8, name, a, b });
+                s.events.push(Event { tid: me as u8, name, tag: "", a, b });
             }
         }
+    }
+    fn event_str(&self, name: &'static str, tag: &'static str, a: usize, b: usize) {
+        if let Some((inst, me)) = cur() {
+            let mut s = inst.lock();
+            if s.arming.log_events {
+                s.events.push(Event { tid: me as u8, name, tag, a, b });
+            }
+        }
+    }
+    fn controls(&self, class: Class) -> bool {
+        match cur() {
+            Some((inst, _)) => inst.fires(class, 0),
+            None => false,
+        }
+    }
+    fn lock_try_acquire(&self, id: usize, mode: LockMode) -> Option<bool> {
+        let (inst, me) = cur()?;
+        if !inst.fires(mode.class(), id) {
+            return None;
+        }
+        inst.point(me, Op::TryLock { id, mode });
+        Some(inst.lock().threads[me].try_ok)
     }
 }
 
@@ -827,10 +903,11 @@ fn ensure_runtime() {
         if !rt::set_runtime(&BATON_RT) {
             machinery_failure("baton: another runtime is already registered");
         }
-        // watchdog: no scheduling activity of an instance for 10 s while an execution is running
+        // watchdog: no scheduling activity of an instance for 60 s while an execution is running
+        let limit_ticks: u32 = std::env::var("BATON_WATCHDOG_S").ok().and_then(|v| v.parse::<u32>().ok()).unwrap_or(60) * 4;
         std::thread::Builder::new()
             .name("baton-watchdog".into())
-            .spawn(|| {
+            .spawn(move || {
                 let mut last: HashMap<usize, (u64, u32)> = HashMap::new();
                 loop {
                     std::thread::sleep(std::time::Duration::from_millis(250));
@@ -847,10 +924,10 @@ fn ensure_runtime() {
                             let e = last.entry(key).or_insert((a, 0));
                             if e.0 == a {
                                 e.1 += 1;
-                                if e.1 >= 40 {
+                                if e.1 >= limit_ticks {
                                     let s = i.lock();
                                     let tail: Vec<String> = s.steps.iter().rev().take(12).map(|st| format!("t{}:{}", st.tid, st.op.name())).collect();
-                                    machinery_failure(&format!("baton watchdog: no scheduling activity for 10 s (a registered thread really blocked or looped without a scheduling point); current {:?}; last steps (newest first): {}", s.current, tail.join(" ")));
+                                    machinery_failure(&format!("baton watchdog: no scheduling activity for {} s (a registered thread really blocked or looped without a scheduling point); current {:?}; waiting for spawned thread {:?}; last steps (newest first): {}", limit_ticks / 4, s.current, i.spawning.load(Ordering::SeqCst).checked_sub(1), tail.join(" ")));
                                 }
                             } else {
                                 *e = (a, 0);
@@ -873,6 +950,7 @@ impl Inst {
             slots: (0..=MAX_THREADS).map(|_| Slot { go: AtomicU32::new(GO_NONE), th: Mutex::new(None) }).collect(),
             aborting: AtomicBool::new(false),
             activity: AtomicU64::new(0),
+            spawning: AtomicUsize::new(0),
             in_exec: AtomicBool::new(false),
             spin,
             on_stuck: Mutex::new(None),
@@ -1095,6 +1173,7 @@ impl Inst {
         {
             let mut s = self.lock();
             s.reset_strategy(prefix);
+            s.spurious_left = arming.spurious_wakeups;
             s.arming = arming;
             s.locks.clear();
             s.conds.clear();
@@ -1221,9 +1300,11 @@ impl Inst {
                 inst.exit_current();
             })
             .expect("spawn");
+        self.spawning.store(id + 1, Ordering::SeqCst);
         while !ready.load(Ordering::SeqCst) {
             std::thread::yield_now();
         }
+        self.spawning.store(0, Ordering::SeqCst);
         h
     }
 
@@ -1260,6 +1341,7 @@ impl Inst {
     pub fn begin_execution(&self, prefix: Prefix, arming: Arming, horizon: usize, livelock_bound: u32) {
         let mut s = self.lock();
         s.reset_strategy(prefix);
+        s.spurious_left = arming.spurious_wakeups;
         s.arming = arming;
         s.horizon = horizon;
         s.livelock_bound = livelock_bound;
@@ -1340,11 +1422,21 @@ pub struct Config {
     pub horizon: usize,
     pub livelock_bound: u32,
     pub stop_at_first_violation: bool,
+    /// Replay a violating execution once more in this process before reporting it.  Persistent
+    /// scenarios whose instance cannot be trusted after a violation set this to false and have
+    /// the violation confirmed by a replay in a fresh process instead.
+    pub confirm_in_process: bool,
+    /// Bound on the number of *free* deviations from the default decisions in one execution
+    /// (choices that cost no preemption: which thread runs after the current one blocked, yielded
+    /// or ended, which waiter a `notify_one` wakes).  `None` = unbounded.  Long executions with
+    /// many blocking points (a whole GC) have exponentially many zero-preemption schedules; there
+    /// the exploration is "at most `bound` preemptions and at most `free_bound` free deviations".
+    pub free_bound: Option<u32>,
 }
 
 impl Default for Config {
     fn default() -> Self {
-        Config { bound: None, max_executions: 2_000_000, horizon: 20_000, livelock_bound: 64, stop_at_first_violation: true }
+        Config { bound: None, max_executions: 2_000_000, horizon: 20_000, livelock_bound: 64, stop_at_first_violation: true, confirm_in_process: true, free_bound: None }
     }
 }
 
@@ -1392,7 +1484,13 @@ fn prefix_of(info: &ExecInfo, upto: usize, alt: Option<u8>) -> Prefix {
         let c = &info.choices[upto];
         h = hash_step(h, c.mask, c.default as usize, c.free);
     }
-    Prefix { chosen, masks: None, mask_hash: h }
+    if std::env::var("BATON_FULL_MASKS").is_ok() {
+        // debugging aid: divergence is then reported at the exact choice point
+        let n = chosen.len();
+        let trace: Vec<String> = info.steps.iter().map(|s| format!("t{}:{}", s.tid, s.op.name())).collect();
+        return Prefix { debug_parent: Some(Arc::new(trace.join(" "))), chosen, masks: Some(info.choices[..n].iter().map(|c| c.mask).collect()), mask_hash: h, unchecked: false };
+    }
+    Prefix { debug_parent: None, chosen, masks: None, mask_hash: h, unchecked: false }
 }
 
 /// The search: iterative preemption bounding over choice lists.  `run_one(prefix)` performs one
@@ -1409,6 +1507,15 @@ pub fn drive(name: &str, params: &Value, cfg: &Config, min_outcomes: usize, run:
     };
     // determinism: the first execution twice
     let (first, fv) = run_checked(Prefix::default());
+    if let (Some((sig, msg)), false) = (&fv.violation, cfg.confirm_in_process) {
+        // the instance cannot be trusted any more: report (the caller confirms in a fresh process)
+        stats.executions = 1;
+        stats.transitions = first.steps.len() as u64;
+        stats.violations = 1;
+        *stats.outcomes.entry(fv.outcome.clone()).or_insert(0) += 1;
+        run.violation(sig.clone(), format!("{}: {} | outcome {} | default schedule | trace: {}", name, msg, fv.outcome, first.pretty()), case_json(name, params, &first));
+        return stats;
+    }
     let (again, av) = run_checked(Prefix::default());
     if first.fingerprint() != again.fingerprint() || fv.outcome != av.outcome || fv.violation.is_some() != av.violation.is_some() {
         machinery_failure(&format!("baton: scenario {} is not deterministic: the default execution gave [{}] -> {} and then [{}] -> {}", name, first.pretty(), fv.outcome, again.pretty(), av.outcome));
@@ -1447,8 +1554,8 @@ pub fn drive(name: &str, params: &Value, cfg: &Config, min_outcomes: usize, run:
             }
             if let Some((sig, msg)) = &v.violation {
                 // replay the violating execution once more from its full choice list
-                let full = Prefix { chosen: info.chosen(), masks: Some(info.masks()), mask_hash: 0 };
-                let (info2, v2) = run_checked(full);
+                let full = Prefix { debug_parent: None, chosen: info.chosen(), masks: Some(info.masks()), mask_hash: 0, unchecked: false };
+                let (info2, v2) = if cfg.confirm_in_process { run_checked(full) } else { (info.clone(), Verdict { outcome: v.outcome.clone(), violation: v.violation.clone(), nontrivial: v.nontrivial }) };
                 if info2.fingerprint() != info.fingerprint() || v2.violation.as_ref().map(|x| &x.0) != Some(sig) {
                     machinery_failure(&format!("baton: violating execution of {} did not reproduce: first [{}] {:?}, then [{}] {:?}", name, info.pretty(), v.violation, info2.pretty(), v2.violation));
                 }
@@ -1466,6 +1573,7 @@ pub fn drive(name: &str, params: &Value, cfg: &Config, min_outcomes: usize, run:
                 run.sample(json!({"scenario": name, "params": params, "choices": info.chosen(), "trace": info.pretty(), "outcome": v.outcome, "preemptions": info.preemptions}));
             }
             // children: deviate from the default at one choice point after the prefix
+            let free_used = info.choices[..plen.min(info.choices.len())].iter().filter(|c| c.chosen != c.default && c.free & bit(c.chosen as usize) != 0).count() as u32;
             for i in plen..info.choices.len() {
                 let c = info.choices[i];
                 debug_assert_eq!(c.chosen, c.default);
@@ -1475,7 +1583,11 @@ pub fn drive(name: &str, params: &Value, cfg: &Config, min_outcomes: usize, run:
                     }
                     let child = prefix_of(&info, i, Some(alt));
                     if c.free & bit(alt as usize) != 0 {
-                        stack.push(child);
+                        if cfg.free_bound.map(|fb| free_used < fb).unwrap_or(true) {
+                            stack.push(child);
+                        } else {
+                            dropped_by_bound = true;
+                        }
                     } else if cfg.bound.map(|mb| b < mb).unwrap_or(true) {
                         if next.len() < 4_000_000 {
                             next.push(child);
@@ -1548,7 +1660,7 @@ pub fn explore<S: Scenario>(sc: &S, cfg: &Config, run: &mut Run) -> Stats {
 pub fn replay_case<S: Scenario>(sc: &S, case: &Value, horizon: usize, livelock_bound: u32) -> (ExecInfo, Verdict) {
     let chosen: Vec<u8> = case["choices"].as_array().map(|a| a.iter().map(|x| x.as_u64().unwrap_or(0) as u8).collect()).unwrap_or_default();
     let masks: Option<Vec<u32>> = case["masks"].as_array().map(|a| a.iter().map(|x| x.as_u64().unwrap_or(0) as u32).collect());
-    let prefix = Prefix { chosen: chosen.clone(), masks, mask_hash: 0 };
+    let prefix = Prefix { debug_parent: None, chosen: chosen.clone(), masks, mask_hash: 0, unchecked: false };
     let n = sc.threads();
     let inst = Inst::new();
     inst.set_slot_thread(CTRL);
